@@ -70,7 +70,7 @@ func collectSymbols(pkgs map[string]*packages.Package) (symTable, map[string]typ
 			key := path + "|" + name
 			switch o := obj.(type) {
 			case *types.Func:
-				tab[key] = &symEntry{Kind: "func", Sig: types.TypeString(o.Type(), qualifier), Members: uses[o]}
+				tab[key] = &symEntry{Kind: "func", Sig: sigNoRecv(o), Members: uses[o]}
 				objs[key] = o
 			case *types.Var:
 				tab[key] = &symEntry{Kind: "var", Sig: types.TypeString(o.Type(), qualifier)}
@@ -128,10 +128,22 @@ func collectSymbols(pkgs map[string]*packages.Package) (symTable, map[string]typ
 	return tab, objs
 }
 
+// sigNoRecv renders a signature by the types of its parameters and results only (no receiver, no parameter names: a
+// renamed parameter does not make it another function).
 func sigNoRecv(m *types.Func) string {
 	sig := m.Type().(*types.Signature)
-	s := types.NewSignatureType(nil, nil, nil, sig.Params(), sig.Results(), sig.Variadic())
-	return types.TypeString(s, qualifier)
+	var ps, rs []string
+	for i := 0; i < sig.Params().Len(); i++ {
+		t := types.TypeString(sig.Params().At(i).Type(), qualifier)
+		if sig.Variadic() && i == sig.Params().Len()-1 {
+			t = "..." + strings.TrimPrefix(t, "[]")
+		}
+		ps = append(ps, t)
+	}
+	for i := 0; i < sig.Results().Len(); i++ {
+		rs = append(rs, types.TypeString(sig.Results().At(i).Type(), qualifier))
+	}
+	return "func(" + strings.Join(ps, ", ") + ") (" + strings.Join(rs, ", ") + ")"
 }
 
 // usedNames maps every function and method declared in pk to the sorted set of names of the
